@@ -44,6 +44,8 @@ structure Conf where
   dqCount : Nat
   attemptNum : Int
   dq : Bool
+  minRetNs : Nat := 0      -- BackoffOpts.MinRetention in ns (0: pauses not checked)
+  mult : Nat := 2          -- BackoffOpts.Multiplier
 
 /-- the retry clause: giving up is allowed only after at least `attemptNum` retries (that is
     `attemptNum + 1` failed sends), never for a negative setting -/
@@ -80,9 +82,12 @@ def stepP (c : Conf) (p : PS9) : CTk → Option PS9
     if p.mainP.started.contains k && !r.done && !r.ok && r.err.isNone && r.nexts == r.fails then
       some { p with recs := putB (if ok then { r with ok := true } else { r with fails := r.fails + 1 }) p.recs }
     else none
-  | .n k tries _ =>
+  | .n k tries stop pause =>
     let r := getB k p.recs
-    if !r.done && !r.ok && r.err.isNone && r.fails == r.nexts + 1 && tries == r.nexts then
+    -- "growing pauses": the pause asked for at this batch's own retry index lies in that index's interval of
+    -- the schedule min·mult^n (± 50 %), whatever other workers do with their batches in the meantime
+    let pauseFine := stop || c.minRetNs == 0 || pauseOk c.minRetNs c.mult r.nexts pause
+    if !r.done && !r.ok && r.err.isNone && r.fails == r.nexts + 1 && tries == r.nexts && pauseFine then
       some { p with recs := putB { r with nexts := r.nexts + 1 } p.recs }
     else none
   | .e k ids =>
